@@ -27,15 +27,3 @@ pub mod line_col {
     }
 }
 
-pub mod rules {
-    pub mod aidl {
-        // generated: `pub use self::__lalrpop_util::lexer::Token;`
-        pub use crate::lalrpop_util::lexer::Token;
-    }
-}
-
-// lalrpop-util 0.19.8 src/lexer.rs: `impl Display for Token` writes self.1
-impl<'input> VStr for lalrpop_util::lexer::Token<'input> {
-    open spec fn vs_view(&self) -> Seq<char> { self.1@ }
-    #[verifier::external_body] fn vs(&self) -> (r: &str) { self.1 }
-}
